@@ -56,7 +56,8 @@ def runs(draw, tier):
         pbs, ep = draw(st.integers(1, N + 2)), draw(st.integers(1, 3))
     c = {"type": t, "n": n, "idx": idx, "pbs": pbs, "nbs": draw(st.one_of(st.none(), st.integers(1, 6))),
          "epochs": ep, "form": draw(st.sampled_from(["tensor", "ndarray", "list", "int_ndarray", "float32_tensor", "long_tensor", "tuple", "float32_ndarray"])),
-         "torch_seed": draw(st.integers(0, 2 ** 31 - 1)), "k": draw(st.integers(0, 2)), "np_sizes": draw(st.integers(0, 3)) == 0}
+         "torch_seed": draw(st.integers(0, 2 ** 31 - 1)), "k": draw(st.integers(0, 2)), "np_sizes": draw(st.integers(0, 3)) == 0,
+         "interrupted_first": draw(st.integers(0, 3)) == 0}
     if with_bases:
         kind = draw(st.sampled_from(["mixed", "mixed", "mixed", "all_reference", "one_letter_per_row"]))
         if kind == "all_reference":
@@ -136,6 +137,14 @@ def check(c):
         kw["neg_batch_size"] = None if c["nbs"] is None else np.int64(c["nbs"])      # sizes computed with numpy
     if c["pbs"] is not None:
         kw["pos_batch_size"] = np.int64(c["pbs"]) if c.get("np_sizes") else c["pbs"]
+    if c.get("interrupted_first") and N >= 2:
+        # lifecycle: an earlier run on the same state was stopped inside an epoch (after its first batch); the request is withdrawn and the run
+        # that is verified below starts afresh: every epoch uses every row once
+        stopper = LambdaCallback(on_batch_end=lambda s_, e_, b_: setattr(s_, "stop_training", True))
+        state.fit(data, **dict(kw, epochs=1, callbacks=[stopper], pos_batch_size=1))
+        state.stop_training = False
+        del log[:]
+        del epochs[:]
     state.fit(data, **kw)
 
     if diverged[0]:
